@@ -50,6 +50,9 @@ class Contract:
         # claims: {label: clause} - obligations on the body exactly like `ensures`, but NEVER assumed at call sites
         # (for clauses of the property that are known not to hold: callers must not build on them)
         self.claims = dict(kw.pop("claims", {}))
+        # behavioural subtyping: every override of this (base-class) method that has no contract of its own is
+        # verified against THIS contract (frame included), so a subclass cannot do more than the base promises
+        self.check_overrides = kw.pop("check_overrides", False)
         if kw:
             raise TypeError(f"unknown contract keys {list(kw)} for {key}")
 
